@@ -190,8 +190,10 @@ func runManyTwin(w *World, s *kernel.Sim) {
 		for _, rq := range w.Svc.ReqsSince(0)[base:] {
 			av, _ := w.Svc.Active(rq.Name)
 			asked[rq.Name] = true
-			if !rq.Cond || rq.Old != av {
-				w.Fail("many", "round %d: after a completed Refresh the store asked for %q presenting version %d (conditional=%v) although the service's active version is %d: the store does not hold the active version number", r, rq.Name, rq.Old, rq.Cond, av)
+			// (a store that polls unconditionally shows nothing here; the
+			// cache document above carries its version numbers)
+			if rq.Cond && rq.Old != av {
+				w.Fail("many", "round %d: after a completed Refresh the store asked for %q presenting version %d although the service's active version is %d: the store does not hold the active version number", r, rq.Name, rq.Old, av)
 				return
 			}
 		}
